@@ -391,6 +391,19 @@ def check_bytes_codec(ctx):
                     nm = ast.unparse(n.ast.func).split(".")[-1]
                     if nm in CODEC_NAMES:
                         names.add(nm)
+                    elif isinstance(n.ast.func, ast.Name):
+                        # the codec applied through a local: encoder, _ = (lambda data: b64encode(data).decode(), b64decode)
+                        for k_, pl_ in sp.sources(n.ast.func, n):
+                            if k_ == "expr" and isinstance(pl_, ast.Lambda):
+                                names |= codecs_in(pl_.body)
+                            elif k_ == "expr" and isinstance(pl_, (ast.Attribute, ast.Name)):
+                                nm2 = ast.unparse(pl_).split(".")[-1]
+                                if nm2 in CODEC_NAMES:
+                                    names.add(nm2)
+                                elif isinstance(pl_, ast.Name):
+                                    r_ = model.resolve_name(f.module, pl_.id)
+                                    if r_ is not None and r_[0] == "func":
+                                        names |= codecs_in(r_[1].node)
                 # TABLE[self.encoding] / TABLE.get(self.encoding)
                 for x in ([n.ast] if isinstance(n.ast, (ast.Subscript, ast.Call)) else []):
                     tbl, key = None, None
